@@ -1,12 +1,115 @@
 import CTM.Drive.Util
+import CTM.Drive.Tree
+import CTM.Model.Markers
+import CTM.Model.Normalize
 open Lean
 
 namespace CTM.Drive.Markers
-open CTM CTM.Drive
+open CTM CTM.Drive CTM.Markers CTM.Normalize
 
-/-- ops of this module (stub: none yet) -/
-def handle : Handler := fun op _inp =>
+def parseKey (j : Json) : R PKey := asOption (asPair asNat asNat) j
+def parseLookup (j : Json) : R Lookup := asList (asPair parseKey natList) j
+
+def jKey (k : PKey) : Json := jOpt (jPair jNat jNat) k
+def jLookup (lk : List (PKey × List Gene)) : Json := jList (jPair jKey jNats) lk
+
+def jME {α} (f : α → Json) : Except MErr α → Json
+  | .ok a => jObj [("ok", f a)]
+  | .error e => jObj [("err", jStr e.name)]
+
+def jNE {α} (f : α → Json) : Except NErr α → Json
+  | .ok a => jObj [("ok", f a)]
+  | .error e => jObj [("err", jStr e.name)]
+
+def jCache (c : Cache) : Json :=
+  jObj [("groups", jList (jPair jKey (jList (jPair jNat jNat))) c.groups),
+        ("allQuery", jNats c.allQuery), ("allRef", jNats c.allRef)]
+
+def parseNorm (j : Json) : R Norm := do
+  match ← asStr j with
+  | "raw" => return .raw
+  | "log2CPM" => return .log2CPM
+  | s => .error s!"bad normalization {s}"
+
+def jRows (X : List (List Rat)) : Json := jList (jList jRat) X
+
+def handle : Handler := fun op inp =>
   match op with
+  | "markers.validate" => some do
+      let t ← Tree.parseTree (← field inp "tree")
+      let lk ← parseLookup (← field inp "lookup")
+      let q ← natList (← field inp "Q")
+      let m ← asNat (← field inp "m")
+      return jME jLookup (validateLookup t q m lk)
+  | "markers.createCache" => some do
+      let t ← asOption Tree.parseTree (fieldD inp "tree" Json.null)
+      let lk ← parseLookup (← field inp "lookup")
+      let q ← natList (← field inp "Q")
+      let r ← natList (← field inp "R")
+      let m ← asNat (← field inp "m")
+      match createCache t lk r q m with
+      | .error e => return jObj [("err", jStr e.name)]
+      | .ok c =>
+        let ser : Json := match t with
+          | none => Json.null
+          | some t => jME jLookup (serialize t c)
+        let rec_ : Json := match t with
+          | none => Json.null
+          | some t => jME (fun _ => Json.null) (reconcile t c)
+        let asm : Json := jList (fun g => jPair jKey (jME jNats) (g.1, assemble c g.1)) c.groups
+        return jObj [("ok", jCache c), ("serialize", ser), ("assemble", asm),
+                     ("reconcile", rec_)]
+  | "markers.stage" => some do
+      let t ← Tree.parseTree (← field inp "tree")
+      let lk ← parseLookup (← field inp "lookup")
+      let q ← natList (← field inp "Q")
+      let r ← natList (← field inp "R")
+      let m ← asNat (← field inp "m")
+      let dl ← asOption asNat (fieldD inp "dropLevel" Json.null)
+      let fl ← asBool (fieldD inp "flatten" (Json.bool false))
+      return jME (fun (o : StageOut) =>
+        jObj [("reported", jLookup o.reported), ("used", jLookup o.used)])
+        (stage t lk r q m dl fl)
+  | "markers.flatten" => some do
+      let lk ← parseLookup (← field inp "lookup")
+      return jLookup (flattenLookup lk)
+  | "norm.cpm" => some do
+      let x ← asList ratList (← field inp "X")
+      return jRows (convertToCpm x)
+  | "norm.minSparse" => some do
+      let d ← ratList (← field inp "stored")
+      let c ← asOption asNat (fieldD inp "chunk" Json.null)
+      let u ← asBool (fieldD inp "unsigned" (Json.bool false))
+      let nm ← parseNorm (fieldD inp "norm" (Json.str "raw"))
+      let mn := minSparse d c
+      return jObj [("min", jNE jRat mn),
+                   ("geZero", jNE (jPair jBool jRat) (isGeZero u mn)),
+                   ("check", jNE (fun _ => Json.null) (negativeCheck nm u mn))]
+  | "norm.minDense" => some do
+      let x ← asList ratList (← field inp "X")
+      let w ← asNat (← field inp "width")
+      let c ← asOption (asPair asNat asNat) (fieldD inp "chunk" Json.null)
+      let u ← asBool (fieldD inp "unsigned" (Json.bool false))
+      let nm ← parseNorm (fieldD inp "norm" (Json.str "raw"))
+      let mn := minDense x w c
+      return jObj [("min", jNE jRat mn),
+                   ("geZero", jNE (jPair jBool jRat) (isGeZero u mn)),
+                   ("check", jNE (fun _ => Json.null) (negativeCheck nm u mn))]
+  | "norm.node" => some do
+      -- f = identity: the harness applies log2(1 + .) itself
+      let x ← asList ratList (← field inp "X")
+      let w ← asNat (← field inp "width")
+      let genes ← natList (← field inp "genes")
+      let nm ← parseNorm (← field inp "norm")
+      let am ← natList (← field inp "allMarkers")
+      let nmk ← natList (← field inp "nodeMarkers")
+      let chunk := prepareChunk id x w genes nm am
+      let renorm : Json := match chunk with
+        | .ok c => jNE (fun _ => Json.null) (({ c with norm := .raw } : CBG).toLog2CPM id)
+        | .error _ => Json.null
+      return jObj [("chunk", jNE (fun (c : CBG) => jObj [("data", jRows c.data), ("genes", jNats c.genes)]) chunk),
+                   ("node", jNE jRows (nodeData id x w genes nm am nmk)),
+                   ("renormAfterDownsample", renorm)]
   | _ => none
 
 end CTM.Drive.Markers
